@@ -554,6 +554,7 @@ func (x *Exec) enter(st *State, fr *Frame, to *ssa.BasicBlock) bool {
 					env2 := x.envFor(st, fr)
 					env2.loopHead = to
 					env2.eventFloor = fr.loopMark[to]
+					env2.floorLoop = to
 					x.proveClause(st, env2, be, fmt.Sprintf("%s/loop%d-backedge:%s", x.fname, ord, labelOr(be.Label, k)), "loop-backedge", where)
 				}
 				if spec.Decreases != nil {
@@ -595,6 +596,9 @@ func (x *Exec) enter(st *State, fr *Frame, to *ssa.BasicBlock) bool {
 		}
 		nm[to] = len(st.events)
 		fr.loopMark = nm
+		if len(st.frames) > 0 && fr == st.frames[0] {
+			x.addMaybeEvents(st, to, body)
+		}
 		if spec != nil {
 			env := x.envFor(st, fr)
 			env.loopHead = to
@@ -1855,3 +1859,41 @@ func (fc *FuncContract) wantsStore(name string) bool {
 }
 
 func (x *Exec) waterBefore(w Term) Term { return w }
+
+// addMaybeEvents: the call sites in the body of the loop entered at head, as calls that earlier
+// iterations may have made (callee names as events carry them; calls made inside inlined helpers and
+// callbacks are not listed).
+func (x *Exec) addMaybeEvents(st *State, head *ssa.BasicBlock, body map[*ssa.BasicBlock]bool) {
+	floor := len(st.events)
+	add := func(kind string, cc *ssa.CallCommon) {
+		var callee, alias string
+		switch {
+		case cc.IsInvoke():
+			callee = ifaceMethodName(cc)
+		case cc.StaticCallee() != nil:
+			callee = normName(cc.StaticCallee().String())
+		default:
+			if _, ok := cc.Value.(*ssa.Builtin); ok {
+				return
+			}
+			if mc, ok := cc.Value.(*ssa.MakeClosure); ok {
+				callee = normName(mc.Fn.String())
+			} else {
+				callee = "dyn:" + dynName(cc.Value)
+			}
+		}
+		st.maybe = append(st.maybe, Event{Kind: kind, Callee: callee, Alias: alias, Head: head, Floor: floor, CC: cc})
+	}
+	for b := range body {
+		for _, in := range b.Instrs {
+			switch i := in.(type) {
+			case *ssa.Call:
+				add("call", &i.Call)
+			case *ssa.Go:
+				add("go", &i.Call)
+			case *ssa.Defer:
+				add("defer", &i.Call)
+			}
+		}
+	}
+}
